@@ -361,3 +361,22 @@ prop("C15", lean=["FmpRpc.Tie.C15", "FmpRpc.Props.C15"], runs=[dict(CONN)], rule
      assumptions=["keybase/backoff.RetryNotify is modelled"])
 PROPS["C16"]["runs"].append(dict(CONN))
 PROPS["C16"]["rule"] += " || " + RULE_CONN
+
+prop("C06", lean=["FmpRpc.Tie.C06", "FmpRpc.Props.C06"],
+     runs=[dict(mode="compress", n=(600, 6000), judge="eq"), dict(mode="wire", n=(1500, 15000), judge="eq", only="callc|resp|payload"),
+           dict(SESSION)],
+     rule="compress: payloads (empty, tiny, incompressible, repetitive, msgpack documents, up to 70 kB) through the real gzip / "
+          "msgpackzip compressors: round trip, non-empty output, every single-bit flip of payloads <= 256 B (thorough) / sampled "
+          "bit and byte corruptions, decompression right after a failed one, 16-way concurrent reuse of the pools || " + RULE_WIRE +
+          " || " + RULE_SESSION,
+     assumptions=["DEFLATE / msgpackzip, sync.Pool and gzip's CRC are not modelled: the compressor laws are hypotheses of the theorems, "
+                  "validated on the real compressors by the run"])
+prop("C17", lean=["FmpRpc.Tie.C17", "FmpRpc.Props.C17"],
+     runs=[dict(mode="tls", n=(1, 1), judge="eq")],
+     rule="the full product constructor {root PEM, explicit config, explicit config mutated after construction, custom dialer} x "
+          "certificate {valid, other CA, other name, expired, self-signed} x server behaviour {handshakes, stalls, closes "
+          "mid-handshake} (60 cases, exhaustive) through the real ConnectionTransportTLS.Dial over an in-memory dialer against "
+          "a scripted tls.Server with certificates generated at check time, under virtual time; outcome class, transport "
+          "created or not and elapsed virtual time compared with the model",
+     assumptions=["X.509 path validation and the TLS handshake are crypto/tls's: the `verify` contract of Model/TLS is assumed, "
+                  "exercised by the run"])
